@@ -45,7 +45,7 @@ OPS = tuple(p + o for p in ("sm_", "smr_") for o in BASE_OPS)
 LEAN = ["Ymq.Props.C14Small"]
 AUDIT = "Ymq.Audit.C14Small"
 # >>>>>>>>>> PLACEHOLDER: space separated names of the theorems of namespace Ymq.C14Small (to be filled in) <<<<<<<<<<
-THEOREM_NAMES = ("rank_spec rank_profile_independent pseudoinverse_spec pseudoinverse_no_panic pseudoinverse_sound submatrix_spec pipeline_spec rank_reverse_spec inverse_spec inverse_some_iff inverse_profile_independent transpose_spec mask_spec reverse_spec symmetric_spec identity_spec genblock_never_ends genblock_accepts genblock_never_ends_low_rank genblock_never_ends_witness rank_not_greedy pseudoinverse_unmasked_counterwitness pipeline_nonsymmetric_counterwitness")
+THEOREM_NAMES = ("rank_spec rank_profile_independent pseudoinverse_spec pseudoinverse_no_panic pseudoinverse_sound submatrix_spec pipeline_spec rank_reverse_spec inverse_spec inverse_some_iff inverse_profile_independent transpose_spec mask_spec reverse_spec symmetric_spec identity_spec genblock_never_ends genblock_accepts mul_aab_opt_spec gram_rank_le_cube genblock_never_ends_hang_rule genblock_never_ends_low_rank genblock_never_ends_witness rank_not_greedy pseudoinverse_unmasked_counterwitness pipeline_nonsymmetric_counterwitness")
 THEOREMS = ["Ymq.C14Small." + t for t in THEOREM_NAMES.split()]
 
 N = 64
@@ -1164,12 +1164,13 @@ CLAIM = ("Lean theorems, for EVERY size n (the code has n = 64; n <= 256 where t
          "debug_assert!(ginv.rank() == (rk, mask)), with rk = rank, W supported on S x S, W*T = 1 on S, W*T*W = W (pipeline_spec); entrywise "
          "specifications of transpose, mask (never fails its assertion), reverse, reverse_lane, symmetric, identity; genblock refuses every "
          "stream whose blocks all have a Gram matrix of rank < 64 and returns the first block of rank 64 (genblock_never_ends, "
-         "genblock_accepts); the Gram matrix of genblock has rank <= rank(B) (Mathlib Matrix.rank of the dense matrix), so with rank(B) < 64 - "
-         "e.g. fewer than 64 columns - EVERY stream of blocks is refused without panic and the loop never ends "
-         "(genblock_never_ends_low_rank, witness: the 64 x 2 matrix with two columns e0, genblock_never_ends_witness); counter-witnesses "
-         "outside the domain (symmetric but unmasked input: unwrap panic in both profiles; non-symmetric matrix at the call site: wrong "
-         "answer in release, assertion in checked). NOT proved (checked by the Python oracle only): the remaining part of the hang rule, "
-         "rank(B) >= 64 > rank((B^T B)^3) (needs the matrix semantics of mul_aab_opt: ay = B^T (B y), hence Gram = y^T (B^T B)^3 y).")
+         "genblock_accepts); mul_aab_opt of the model is the matrix product B^T (B y) (mul_aab_opt_spec), the Gram matrix tested by genblock is "
+         "y^T (B^T B)^3 y and has rank <= rank((B^T B)^3) (gram_rank_le_cube, Mathlib Matrix.rank), so the oracle's EXACT hang rule holds in the "
+         "model: with rank((B^T B)^3) < 64 EVERY stream of blocks is refused without panic and the loop never ends "
+         "(genblock_never_ends_hang_rule; corollary rank(B) < 64: genblock_never_ends_low_rank; witness: the 64 x 2 matrix with two columns "
+         "e0, genblock_never_ends_witness); counter-witnesses outside the domain (symmetric but unmasked input: unwrap panic in both "
+         "profiles; non-symmetric matrix at the call site: wrong answer in release, assertion in checked). NOT proved: the converse of the "
+         "hang rule (an admissible block exists when rank((B^T B)^3) >= 64: classification of symmetric bilinear forms over GF(2)).")
 LEVEL_NOTE = ("The theorems are about the model; the K stream ties it to the code in both profiles (sm_* against the checked build, smr_* "
               "against the release build, panics included); genblock is tied through the recorded stream of random blocks. The Python oracle "
               "judges every implementation answer inside the documented domains by its own elimination.")
